@@ -12,6 +12,8 @@ CONSTANTS
   MaxLeaves = 0
   Eps = {}
   Opts = {}
+  MaxPSize = 0
+  MaxPDepth = 0
   MaxHist = 4
 VIEW HView
 CONSTRAINT HBound
